@@ -1,8 +1,8 @@
 """Properties not (yet) claimed, with reasons; level texts for claimed ones."""
 
-_PENDING = "check not built yet in this session (work in progress; see DESIGN.md section 8 order of work)"
+_UNUSED = "check not built yet in this session (work in progress; see DESIGN.md section 8 order of work)"
 
-NOT_APPLICABLE = {pid: _PENDING for pid in ["C%02d" % i for i in range(1, 21)]}
+NOT_APPLICABLE = {}
 
 LEVEL_TEXT = {
     "C01": "Bounded model checking of the real LockDB.Lock/UnLock (and everything they reach) by symbolic execution: the grant rule is asserted at every new hold for every command of the core subset, from every state of a bounded shape (<=3 holders, <=2 queued requests, symbolic Count/Rcount/priority/depth, any outstanding-hold counter < 2^31) and for every 2-operation history from the empty database. Inside the bound the solver's verdict covers all values; outside it nothing is claimed.",
@@ -62,6 +62,10 @@ LEVEL_TEXT.update({
     "C19": "Bounded model checking of the composition 'client primitive builds the command' o 'server admits it': Lock exclusive, RLock re-entrant for its holder only with as many unlocks as locks, Semaphore(n)/MaxConcurrentFlow(n) admit exactly n (symbolic n), RWLock one writer or many readers.",
 })
 
+LEVEL_TEXT.update({
+    "C15": "Bounded differential model checking: after each of 3 value operations the stored value (decoded with the real accessors) equals the reference interpreter's, the reply carries the value from before the operation, and a refused request leaves it unchanged and reports it.",
+})
+
 LEVEL_NOTE = {
     "C01": "Trusted: the symgo executor (validated per run by native replay of sampled path witnesses), z3. Schedules: single-threaded critical sections only (no interleaving of two requests inside LockDB.Lock is explored); time values drawn from classes {0,3}/{0,4}; millisecond flags and aof-timing flags fixed in these harnesses.",
     "C02": "Trusted: symgo (validated by native replay of sampled witnesses), z3. Single-threaded critical sections; holder list shapes <=3 (inline queue only); show/update flags excluded here (C06).",
@@ -79,6 +83,7 @@ LEVEL_NOTE = {
     "C12": "Kernel only: the remote handlers (same rules behind protobuf decoding), ArbiterVoter.DoVote's candidate choice and majority counting over goroutines, 3..5-process clusters and the kill -9 experiment are outside this check.",
     "C18": "Kernel only: binary protocol; the text protocol's Close and lockWaiter hand-off, re-entrant Close from inside a will's reply, and how the OS reports a closed socket are outside.",
     "C19": "Kernel only: TCP transport, request/response matching, reconnects, forwarding through a follower, concurrency of goroutines, PriorityLock hand-over and Event.Wait are outside this check.",
+    "C15": "Payloads <= 3 bytes, arrays <= 3 items, sequences of 3 operations on LOCK requests only (not on unlock / update / re-lock); PIPELINE, property headers, first-or-last flag and the Redis-style text commands are outside this check; kind-mismatched operations unasserted.",
     "C13": "Trusted: symgo, z3. Frames <= 8 bytes; paths that would allocate more than 300 distinct sizes are cut (listed as unsupported in the evidence); text handlers, CALL and the 64-byte header parser are covered by separate harnesses where registered.",
     "C14": "Trusted: symgo, z3. crypto/md5 is an uninterpreted function.",
     "C20": "Trusted: symgo. Programs longer than the bound and constructor parameters above 3 are outside the claim.",
